@@ -11,3 +11,13 @@ Proof. repeat split; reflexivity. Qed.
 Lemma tie_spawn_sigchld_text :
   Params_gen.spawn_sigchld_src = "{intwstat;intpid;inti;while((pid=wait_nohang(&wstat))>0)for(i=0;i<auto_spawn;++i)if(d[i].used)if(d[i].pid==pid){close(d[i].fdout);d[i].fdout=-1;d[i].wstat=wstat;d[i].pid=0;}}"%string.
 Proof. reflexivity. Qed.
+(* report() of today's qmail-rspawn.c, translated to Gallina by tools/c2gallina.py (gen/CGen.v, module C_rreport), writes for
+   every wait status and every child output exactly the model's rspawn_report - the function the verdict theorems of C09 are
+   about (crashed = status & 127, exit code = status >> 8) *)
+From Coq Require NArith.
+From NQ Require Base.MiniC Base.Bytes Remote.RemoteSmtp gen.CGen Tie.GenCommon Tie.Gen_report.
+Lemma tie_generated_rspawn_report : forall (pre : list Z) (wstat : Z) (out : Bytes.bytes), GenCommon.bytes_ok out -> (0 <= wstat < 2 ^ 31)%Z ->
+  (Z.of_nat (List.length out) < 2 ^ 31)%Z ->
+  option_map (fun r => CGen.C_rreport.a_ss__out (snd r)) (CGen.C_rreport.run (S (List.length out)) pre wstat (GenCommon.zs out) 0%Z (Z.of_nat (List.length out)))
+  = Some (pre ++ GenCommon.zs (RemoteSmtp.rspawn_report (negb (Z.land wstat 127 =? 0)%Z) (Z.to_N (Z.shiftr wstat 8)) out))%list.
+Proof. exact Gen_report.gen_rreport_eq. Qed.
